@@ -786,3 +786,68 @@ func ruleUnwrappedByKind(c *Ctx, rule string) {
 	}
 	c.R.Floor(rule, "unwrappings of an instance under a test of it", n, 3)
 }
+
+func init() {
+	for _, pid := range []string{"C07", "C15", "C08"} {
+		pid := pid
+		Properties[pid].Rules = append(Properties[pid].Rules, Rule{pid + "/property-value-as-stored", func(c *Ctx) { rulePropertyValueAsStored(c, pid+"/property-value-as-stored") }})
+	}
+}
+
+// The helper that answers "the value of property p of this instance" (func(reflect.Value, string) reflect.Value)
+// hands back what the map or struct holds. Its answer doubles as the presence test (an invalid Value means "no such
+// property"), so it must not step through a pointer or interface that may be nil: Elem of a nil pointer is the
+// invalid Value, and a property that is present with the value null would be reported absent - not marked evaluated,
+// not a trigger for dependentSchemas, missing for required - while the enumeration of properties still lists it.
+func rulePropertyValueAsStored(c *Ctx, rule string) {
+	n := 0
+	seen := map[*ssa.Function]bool{}
+	for _, cl := range []string{"EV", "DEF"} {
+		for _, fn := range c.Closure(rule, cl).Sorted() {
+			if seen[fn] || !c.P.InPkg(fn) || fn.Parent() != nil {
+				continue
+			}
+			seen[fn] = true
+			sig := fn.Signature
+			if sig.Recv() != nil || sig.Params().Len() != 2 || sig.Results().Len() != 1 || !tReflectValue(sig.Params().At(0).Type()) || !tString(sig.Params().At(1).Type()) || !tReflectValue(sig.Results().At(0).Type()) {
+				continue
+			}
+			n++
+			bad := ""
+			core.EachInstr(fn, func(i ssa.Instruction) {
+				call, ok := i.(*ssa.Call)
+				if !ok {
+					return
+				}
+				key := core.CalleeKey(&call.Call)
+				if key != "reflect.Value.Elem" && key != "reflect.Indirect" {
+					return
+				}
+				// on a value taken out of the instance (not on the instance itself, which the callers have stripped)
+				fromMember := false
+				for _, v := range append(backSlice(call.Call.Args[0], 16), call.Call.Args[0]) {
+					if mc, ok := v.(*ssa.Call); ok {
+						switch core.CalleeKey(&mc.Call) {
+						case "reflect.Value.MapIndex", "reflect.Value.Field", "reflect.Value.FieldByIndex", "reflect.Value.FieldByName":
+							fromMember = true
+						}
+					}
+				}
+				if !fromMember {
+					return
+				}
+				notNil := false
+				for _, g := range guardsLocal(call) {
+					if gc, ok := g.Cond.(*ssa.Call); ok && !g.Pol && core.CalleeKey(&gc.Call) == "reflect.Value.IsNil" && sharesSource(gc.Call.Args[0], call.Call.Args[0]) {
+						notNil = true
+					}
+				}
+				if !notNil {
+					bad = c.pos(call)
+				}
+			})
+			c.R.Check(bad == "", rule, core.FuncName(fn)+":member-not-unwrapped", c.P.Pos(fn.Pos()), "the property value is handed back as the map or struct holds it", "the property lookup steps through a pointer or interface held in the map or struct (at "+bad+") without knowing it to be non-nil: for a nil one the result is the invalid Value, which the callers read as \"no such property\", so a property that is present with the value null is not marked evaluated, does not trigger dependentSchemas and is unevaluated for unevaluatedProperties, while the enumeration of the properties still lists it")
+		}
+	}
+	c.R.Floor(rule, "property lookup helpers", n, 1)
+}
